@@ -14,9 +14,9 @@
 #include "GC.c"
 
 enum { NK_PNODE, NK_PMARK, NK_PADDR, NK_REF, NK_BOX, NK_ARR_REF, NK_LIST_REF, NK_ARR_EMB, NK_TAB_INT_REF,
-       NK_TAB_REF_REF, NK_TREE_INT_REF, NK_TREE_REF_REF, NK_TUPLE, NK_COUNT };
+       NK_TAB_REF_REF, NK_TREE_INT_REF, NK_TREE_REF_REF, NK_TUPLE, NK_THREAD, NK_COUNT };
 static const char* NKNAME[NK_COUNT] = { "struct", "struct+Mark", "struct@addr", "Ref", "Box", "Array<Ref>", "List<Ref>",
-  "Array<struct>", "Table<Int,Ref>", "Table<Ref,Ref>", "Tree<Int,Ref>", "Tree<Ref,Ref>", "Tuple" };
+  "Array<struct>", "Table<Int,Ref>", "Table<Ref,Ref>", "Tree<Int,Ref>", "Tree<Ref,Ref>", "Tuple", "Thread-not-started" };
 
 enum { MAXNODES = 1500000, NROOTS = 8, NTLS = 4, MAXITEMS = 1200 };
 
@@ -50,7 +50,12 @@ static int in_collection;
 static char keybuf[128];
 static const char* K(const char* what) { snprintf(keybuf, sizeof keybuf, "%s:%s", PROP, what); return keybuf; }
 
-static int is_struct_kind(int k) { return k == NK_PNODE || k == NK_PMARK || k == NK_PADDR; }
+/* NK_THREAD: a Thread object that was created and not started; what set(t, key, x) puts into its storage is held by
+   the Thread object (its Mark instance hands the storage to the collector).  Four keys = four slots. */
+static int is_struct_kind(int k) { return k == NK_PNODE || k == NK_PMARK || k == NK_PADDR || k == NK_THREAD; }
+static const char* THKEY[PN_FIELDS] = { "slot-a", "slot-b", "slot-c", "slot-d" };
+static var noop_fn;
+static var thread_noop(var args) { (void)args; return NULL; }
 static int is_seq_kind(int k) { return k == NK_ARR_REF || k == NK_LIST_REF || k == NK_ARR_EMB || k == NK_TUPLE; }
 static int is_map_kind(int k) { return k >= NK_TAB_INT_REF && k <= NK_TREE_REF_REF; }
 static int is_refkey_map(int k) { return k == NK_TAB_REF_REF || k == NK_TREE_REF_REF; }
@@ -241,6 +246,7 @@ static int alloc_node(int kind, int as_root) {
     case NK_TREE_INT_REF: p = new(Tree, Int, Ref); break;
     case NK_TREE_REF_REF: p = new(Tree, Ref, Ref); break;
     case NK_TUPLE: p = new(Tuple); break;
+    case NK_THREAD: p = new(Thread, noop_fn); break;
     default: return -1;
   }
   if (mo_destructed != d0) { vh_count("threshold_collections_that_freed_something"); }
@@ -262,6 +268,10 @@ static void store_field(int h, int slot, int target) {
     case NK_PADDR: ((struct PAddr*)s->ptr)->f[slot] = p; break;
     case NK_PMARK: ((struct PMark*)s->ptr)->slots[slot] = p; break;
     case NK_REF: ref(s->ptr, p); slot = 0; break;
+    case NK_THREAD:
+      if (p != NULL) { set(s->ptr, $S((char*)THKEY[slot]), p); }
+      else if (mem(s->ptr, $S((char*)THKEY[slot]))) { rem(s->ptr, $S((char*)THKEY[slot])); }
+      break;
     default: return;
   }
   if (s->f[slot] >= 0) { N[s->f[slot]].nin--; }
@@ -298,6 +308,14 @@ static void check_node(int n, const char* when) {
       for (int i = 0; i < PN_FIELDS; i++) { if (p->slots[i] != ptr_of(s->f[i])) { vh_violation(K("reachable-object-field-changed"), "struct+Mark id %" PRId64 " slot %d changed (%s)", s->id, i, when); } }
       break;
     }
+    case NK_THREAD:
+      for (int i = 0; i < PN_FIELDS; i++) {
+        bool has = mem(s->ptr, $S((char*)THKEY[i]));
+        if (has != (s->f[i] >= 0) || (has && get(s->ptr, $S((char*)THKEY[i])) != ptr_of(s->f[i]))) {
+          vh_violation(K("reachable-object-field-changed"), "storage slot %d of an unstarted Thread changed (%s)", i, when);
+        }
+      }
+      break;
     case NK_REF: case NK_BOX:
       if (type_of(s->ptr) != (s->kind == NK_REF ? Ref : Box) || deref(s->ptr) != ptr_of(s->f[0])) {
         vh_violation(K("reachable-object-field-changed"), "%s node %d no longer points at its target (%s)", NKNAME[s->kind], n, when);
@@ -983,6 +1001,7 @@ int main(int argc, char** argv) {
   RS = calloc(RS_CAP, sizeof(struct rs_entry));
   rs_used = calloc(RS_CAP, sizeof(size_t));
   gc = current(GC);
+  { static char fnbuf[sizeof(struct Header) + sizeof(struct Function)]; noop_fn = header_init(fnbuf, Function, AllocStatic); ((struct Function*)noop_fn)->func = thread_noop; }
   for (int i = 0; i < NTLS; i++) { tls_node[i] = -1; }
   return vh_run(argc, argv, "heap", fixed, case_random);
 }
